@@ -3039,6 +3039,10 @@ namespace detail {
                         {
                             result->emplace_back(const_json_ptr_arg, &j);
                         }
+                        if (step >= end - i) // next index is past the end, and i + step could overflow
+                        {
+                            break;
+                        }
                     }
                 }
                 else
@@ -3057,6 +3061,10 @@ namespace detail {
                         if (!j.is_null())
                         {
                             result->emplace_back(const_json_ptr_arg, &j);
+                        }
+                        if (step <= end - i) // next index is before the end, and i + step could overflow
+                        {
+                            break;
                         }
                     }
                 }
